@@ -4,6 +4,7 @@ package validate
 // oracles need. Nothing here changes behaviour of the library.
 
 import (
+	"fmt"
 	re "regexp"
 )
 
@@ -52,3 +53,19 @@ func VerifResultWantsRedeem(r *Result) bool { return r != nil && r.wantsRedeemOn
 
 // VerifWithRecycleResults exposes the private option AgainstSchema uses (results borrowed from the pool).
 func VerifWithRecycleResults() Option { return withRecycleResults(true) }
+
+// VerifSentinelState describes how the shared "valid, nothing to say" result (returned by many
+// validators instead of a fresh one) differs from its initial value; "" when it is pristine.
+func VerifSentinelState() string {
+	r := emptyResult
+	if len(r.Errors) == 0 && len(r.Warnings) == 0 && r.MatchCount == 1 && !r.wantsRedeemOnMerge && r.data == nil &&
+		r.rootObjectSchemata.Len() == 0 && len(r.fieldSchemata) == 0 && len(r.itemSchemata) == 0 {
+		return ""
+	}
+	return fmt.Sprintf("errors=%d warnings=%d matchCount=%d pooled=%v schemata=%d/%d/%d", len(r.Errors), len(r.Warnings), r.MatchCount,
+		r.wantsRedeemOnMerge, r.rootObjectSchemata.Len(), len(r.fieldSchemata), len(r.itemSchemata))
+}
+
+// VerifRestoreSentinel puts the shared result back into its initial state (harness: executions
+// must not influence each other).
+func VerifRestoreSentinel() { *emptyResult = Result{MatchCount: 1} }
